@@ -141,7 +141,8 @@ class World_:
                 self.evals, self.requests = [], []
 
             def _e(self, el_):
-                return w.eid[id(el_)] if id(el_) in w.eid else w.elements.index(el_)
+                # by name: copies / unpickled elements are legal arguments and must never make the *harness* raise
+                return w.eid[id(el_)] if id(el_) in w.eid else tr_constants.ELEMENT_IDS.index(el_.name)
 
             def _t(self, t):
                 return TRANSITIONS.index(t)
@@ -1176,13 +1177,14 @@ def rnd_presence(rng, positive, p_pos=0.55, p_zero=0.25):
     return positive if k < p_pos else (rng.choice([0.0, 0.0, -0.0]) if k < p_pos + p_zero else -positive * rng.choice([1.0, 0.1]))
 
 
-def build_model(w, kind, le, lc, tr, pl, ad, lineshape='rec', gaunt=None, integrator=None):
-    line = w.Line(w.elements[le], lc, TRANSITIONS[tr])
+def build_model(w, kind, le, lc, tr, pl, ad, lineshape='rec', gaunt=None, integrator=None, elem=None, line=None):
+    elem = elem if elem is not None else w.elements[le]
+    line = line if line is not None else w.Line(elem, lc, TRANSITIONS[tr])
     if kind in ('exc', 'rec', 'cx'):
         kw = dict(lineshape=w.RecLS) if lineshape == 'rec' else {}
         return getattr(w.cm, REEVAL_MODEL[kind])(line, plasma=pl, atomic_data=ad, **kw)
     if kind == 'trp':
-        return w.cm.TotalRadiatedPower(w.elements[le], lc, plasma=pl, atomic_data=ad)
+        return w.cm.TotalRadiatedPower(elem, lc, plasma=pl, atomic_data=ad)
     kw = {}
     if gaunt is not None:
         kw['gaunt_factor'] = w.Gaunt(gaunt)
@@ -1344,6 +1346,155 @@ def run_multi_instance(ctx, w, K, n):
                          % (name, j, k_inst, order[:step + 1], got if isinstance(got, str) else got[:3], want if not isinstance(want, list) else want[:3]), desc)
                 break
 
+
+# ------------------------------------------------------------------------------------------------------------------
+#  round 5: a collected (dead) observer registered before the live model; equal-but-not-identical element / species copies
+# ------------------------------------------------------------------------------------------------------------------
+def rnd_state(w, rng, kind, positive=0.85):
+    le = rng.choice([4, 9, 10, 12])
+    lc = rng.randint(0, w.znum(le) - 1)
+    comp = [(e, c, abs(n_) if rng.random() < positive and n_ != 0 else n_, abs(t) or 1.0) for (e, c, n_, t) in rnd_composition(w, rng, le, lc, nmax=6)]
+    if kind == 'trp':
+        # make the hydrogen-CX term matter: both ion stages and a hydrogen-isotope neutral present
+        keys = [(e, c) for (e, c, _, _) in comp]
+        for need in ((le, lc), (le, lc + 1), (rng.choice([0, 1, 2, 3]), 0)):
+            if need not in keys:
+                comp.append((need[0], need[1], 10 ** rng.uniform(15, 19), 10.0))
+        comp = [(e, c, abs(n_) or 1e16 if (c == 0 and w.znum(e) == 1) or (e, c) == (le, lc + 1) else n_, t) for (e, c, n_, t) in comp]
+    par = rnd_par(rng)
+    mn = rng.uniform(200, 600)
+    return dict(comp=comp, ne=10 ** rng.uniform(17, 20), te=10 ** rng.uniform(0.5, 3.5), par=(abs(par[0]) or 1e-35,) + par[1:],
+                has=(1, 1, 1) if kind == 'trp' else tuple(int(rng.random() < 0.9) for _ in range(3)),
+                gaunt=(rng.choice([0.75, 1.0, 1.5]), rng.choice([0.0, 0.125]), 0.0, 0.0), le=le, lc=lc, tr=rng.randrange(len(TRANSITIONS)),
+                window=(mn, mn + rng.uniform(1, 300), rng.choice([1, 2, 5])))
+
+
+def state_desc(w, name, st, **extra):
+    return dict(model=name, line=dict(element=tr_constants.ELEMENT_IDS[st['le']], charge=st['lc'], transition=TRANSITIONS[st['tr']]),
+                ne=st['ne'], te=st['te'], rate_par=st['par'], rates_present=st['has'], gaunt=st['gaunt'], window=st['window'],
+                composition=comp_desc(w, st['comp']), **extra)
+
+
+def run_dead_observer(ctx, w, K, n):
+    """(a) models created on the same plasma *before* the model under test are dropped and garbage collected; then the
+    plasma changes (species density / whole composition / electrons) and the survivor, whose cache was populated, is
+    evaluated again: documented expression for the current plasma (S), model fed the current values (K)"""
+    import gc
+    rng = ctx.rng
+    for it in range(n):
+        kind = REEVAL_KINDS[it % len(REEVAL_KINDS)]
+        name = REEVAL_MODEL[kind]
+        st = rnd_state(w, rng, kind)
+        le, lc, tr = st['le'], st['lc'], st['tr']
+        pl = w.plasma(st['comp'], st['ne'], st['te'])
+        ad = w.MockAD(st['par'], has=st['has'], gaunt=st['gaunt'])
+        layout = rng.choice(['V S', 'V V S', 'L V S', 'V S L', 'V L V S', 'V V V S L'])     # V victim, L live bystander, S survivor
+        objs, survivor = [], None
+        for tag in layout.split():
+            k2 = kind if tag == 'S' else rng.choice(REEVAL_KINDS)
+            m = build_model(w, k2, le, lc, tr, pl, ad)
+            objs.append((tag, m))
+            if tag == 'S':
+                survivor = m
+        got, kline, want, floor = reeval_state(w, kind, survivor, st)
+        if not reeval_ok(kind, got, want, floor):
+            ctx.count('dead-observer:fresh-state-already-differs')
+            continue
+        for tag, m in objs:                                  # some victims / bystanders have populated caches too
+            if tag != 'S' and rng.random() < 0.5:
+                call(m.emission, w.Point3D(0, 0, 0), w.Vector3D(0, 0, 1), w.Spectrum(400.0, 500.0, 2))
+        live = [m for tag, m in objs if tag != 'V']
+        del objs, m
+        gc.collect()
+        history = ['fresh', 'collected(%s)' % layout]
+        ops = rng.choice([['density'], ['composition'], ['density', 'composition'], ['composition', 'density'], ['electrons', 'density']])
+        for op in ops:
+            if op == 'density':
+                # change a species the model caches (target / receiver / donor) where possible
+                cands = [j for j, (e_, c_, _, _) in enumerate(st['comp']) if (e_, c_) in ((le, lc), (le, lc + 1)) or c_ == 0] or list(range(len(st['comp'])))
+                j = rng.choice(cands)
+                e_, c_, n_, t_ = st['comp'][j]
+                n2, t2 = abs(n_) * rng.choice([7.0, 0.25, 3.0]) + 1e15, t_ * rng.choice([1.0, 2.0])
+                pl.composition.add(w.Species(w.elements[e_], c_, w.Dist(n2, t2)))
+                st = dict(st, comp=st['comp'][:j] + [(e_, c_, n2, t2)] + st['comp'][j + 1:])
+            elif op == 'composition':
+                comp2 = rnd_state(w, rng, kind)['comp'] if rng.random() < 0.3 else \
+                    [(e_, c_, abs(n_) * rng.choice([5.0, 0.2]) + 1e15, t_) for (e_, c_, n_, t_) in st['comp']] + \
+                    ([(13, rng.randint(1, 18), 10 ** rng.uniform(15, 18), 20.0)] if all(e_ != 13 for (e_, _, _, _) in st['comp']) else [])
+                pl.composition = [w.Species(w.elements[e_], c_, w.Dist(n_, t_)) for (e_, c_, n_, t_) in comp2]
+                st = dict(st, comp=comp2)
+            else:
+                ne2, te2 = 10 ** rng.uniform(17, 20), 10 ** rng.uniform(0.5, 3.5)
+                pl.electron_distribution = w.Dist(ne2, te2)
+                st = dict(st, ne=ne2, te=te2)
+            history.append(op)
+            got, kline, want, floor = reeval_state(w, kind, survivor, st)
+            desc = state_desc(w, name, st, stream='dead-observer', registration_order=layout, history=list(history))
+            K.add('dead-observer:' + kind, kline, got, desc, floor=floor)
+            ctx.count('dead-observer:%s:%s' % (kind, op))
+            ctx.case(key=('dead-observer', kind, it, len(history)) if not isinstance(got, str) else None,
+                     sample=desc if (it < 5 and kind == 'trp') else None)
+            if not reeval_ok(kind, got, want, floor):
+                ctx.fail('C03:%s.emission:after-%s-following-collected-model:differs-from-documented-for-current-state'
+                         % (name, {'density': 'species-density-change', 'composition': 'composition-replaced', 'electrons': 'electron-distribution-change'}[op]),
+                         '%s (models created on the plasma in order %s, the V ones deleted and collected) after %s: %r, documented for the current plasma %r'
+                         % (name, layout, ' -> '.join(history), got if isinstance(got, str) else got[:3], want if not isinstance(want, list) else want[:3]), desc)
+                break
+        del live
+
+
+def run_copies(ctx, w, K, n):
+    """(b) the plasma's elements / species / the model's line are equal-but-not-identical copies (copy, deepcopy, pickle
+    round trip) of the library objects: same emission as with the library objects, = documented (S), = model (K)"""
+    import copy
+    import pickle
+    rng = ctx.rng
+    HOW = ('library', 'copy', 'deepcopy', 'pickle')
+
+    def variant(obj, how):
+        return obj if how == 'library' else copy.copy(obj) if how == 'copy' else copy.deepcopy(obj) if how == 'deepcopy' else pickle.loads(pickle.dumps(obj))
+    for it in range(n):
+        kind = REEVAL_KINDS[it % len(REEVAL_KINDS)]
+        name = REEVAL_MODEL[kind]
+        st = rnd_state(w, rng, kind)
+        le, lc, tr = st['le'], st['lc'], st['tr']
+        hows = [rng.choice(HOW[1:]) if rng.random() < 0.8 else 'library' for _ in st['comp']]
+        how_model = rng.choice(HOW)
+        how_species = [rng.choice(['new', 'copy']) for _ in st['comp']]
+
+        def plasma(use_copies):
+            pl = w.Plasma()
+            pl.electron_distribution = w.Dist(st['ne'], st['te'])
+            sp = []
+            for (e_, c_, n_, t_), how, hs in zip(st['comp'], hows, how_species):
+                s_ = w.Species(variant(w.elements[e_], how) if use_copies else w.elements[e_], c_, w.Dist(n_, t_))
+                sp.append(copy.copy(s_) if (use_copies and hs == 'copy') else s_)
+            pl.composition = sp
+            return pl
+        results = []
+        for use_copies in (False, True):
+            elem = variant(w.elements[le], how_model) if use_copies else w.elements[le]
+            line = w.Line(elem, lc, TRANSITIONS[tr])
+            if use_copies and rng.random() < 0.5:
+                line = variant(line, rng.choice(HOW[1:]))
+            m = build_model(w, kind, le, lc, tr, plasma(use_copies), w.MockAD(st['par'], has=st['has'], gaunt=st['gaunt']), elem=elem, line=line)
+            results.append(reeval_state(w, kind, m, st))
+        (got_l, _, want, floor), (got_c, kline, _, _) = results
+        desc = state_desc(w, name, st, stream='copied-elements', element_copies=hows, species_copies=how_species, model_element=how_model)
+        K.add('copies:' + kind, kline, got_c, desc, floor=floor)
+        ctx.count('copies:%s' % kind)
+        ctx.case(key=('copies', kind, it) if not isinstance(got_c, str) else None, sample=desc if (it < 5 and kind == 'trp') else None)
+        same = (got_c == got_l) if (isinstance(got_c, str) or isinstance(got_l, str)) else \
+            (len(got_c) == len(got_l) and all(close(a, b, 1e-12, floor) for a, b in zip(got_c, got_l)))
+        shown = got_c if isinstance(got_c, str) else got_c[:3]
+        if not reeval_ok(kind, got_c, want, floor):
+            ctx.fail('C03:%s.emission:copied-elements:differs-from-documented' % name,
+                     '%s on a plasma whose elements are %r copies of the library objects: %r, documented %r (library objects give %r)'
+                     % (name, sorted(set(hows)), shown, want if not isinstance(want, list) else want[:3], got_l if isinstance(got_l, str) else got_l[:3]), desc)
+        elif not same:
+            ctx.fail('C03:%s.emission:copied-elements:differs-from-library-objects' % name,
+                     '%s: %r with copied elements, %r with the library objects' % (name, shown, got_l if isinstance(got_l, str) else got_l[:3]), desc)
+
 # ------------------------------------------------------------------------------------------------------------------
 def compare(ctx, K, outs):
     for line, obs, (kind, desc, floor), o in zip(K.lines, K.obs, K.meta, outs):
@@ -1378,7 +1529,9 @@ def run(ctx):
                 'is evaluated fresh and again after each of provider swap / species density change / composition replacement / electron change (random order); '
                 'multi-point stream: one instance over tabulated non-uniform profiles (each species / electrons / temperatures independently '
                 'positive, 0 or negative per point), points revisited in random order, non-empty incoming spectrum; multi-instance stream: 2-3 live '
-                'models of one kind (default-constructed and explicit) on different plasmas/providers evaluated interleaved')
+                'models of one kind (default-constructed and explicit) on different plasmas/providers evaluated interleaved; dead-observer stream: models '
+                'created on the plasma before the model under test are deleted and collected, then the plasma changes; copies stream: elements / '
+                'species / lines are copy, deepcopy or pickle round trips of the library objects')
     ctx.trusted += ['pi, sqrt, exp, log, log10 are parameters of the model (libm at Float); the provider rate functions, the Gaunt-factor '
                     'interpolator (raysect Interpolator2DArray) and the Gauss-Legendre nodes (scipy roots_legendre) are parameters',
                     'hand-written CODATA-2018 table lean/Cherab/Model/Codata.lean (and its copy in harness/props/c03.py)',
@@ -1406,6 +1559,8 @@ def run(ctx):
     run_reeval(ctx, w, K, ctx.n(250, 4000))
     run_multipoint(ctx, w, K, ctx.n(200, 3000))
     run_multi_instance(ctx, w, K, ctx.n(150, 2500))
+    run_dead_observer(ctx, w, K, ctx.n(150, 2500))
+    run_copies(ctx, w, K, ctx.n(150, 2500))
     outs = ctx.driver(K.lines)
     ctx.traces = len(K.lines)
     compare(ctx, K, outs)
